@@ -54,12 +54,13 @@ func bufScenario(capacity, bufMax int, producers [][]string, consumers [][]strin
 
 // drain "poll": repeated Poll with pauses; drain "take": one blocking Take per outstanding item.
 func bufScenarioD(capacity, bufMax int, producers [][]string, consumers [][]string, drain string, bound int, delay bool) *vsched.Scenario {
-	return bufScenarioX(capacity, bufMax, producers, consumers, drain, bound, delay, false)
+	return bufScenarioX(capacity, bufMax, producers, consumers, drain, bound, delay, "")
 }
 
 // setters: the queue is built with another buffer maximum and configured through its setters
 // (buffer maximum, loader interval 3 ms instead of the default, node-hook settings) before use.
-func bufScenarioX(capacity, bufMax int, producers [][]string, consumers [][]string, drain string, bound int, delay bool, setters bool) *vsched.Scenario {
+func bufScenarioX(capacity, bufMax int, producers [][]string, consumers [][]string, drain string, bound int, delay bool, mode string) *vsched.Scenario {
+	setters := mode == "setters"
 	fam := "buffered"
 	var ps probeState
 	var fullTick, emptyTick, maxHeld int
@@ -68,6 +69,9 @@ func bufScenarioX(capacity, bufMax int, producers [][]string, consumers [][]stri
 	name := fmt.Sprintf("buffered/cap%d/buf%d/P:%s/C:%s/drain-%s", capacity, bufMax, scripts(producers), scripts(consumers), drain)
 	if setters {
 		name += "/configured-by-setters"
+	}
+	if strings.HasPrefix(mode, "trim") {
+		name += "/node-pool-1-trimmed-every-5ms/sync.Pool-policy" + mode[4:]
 	}
 	return &vsched.Scenario{
 		Name:     name,
@@ -86,6 +90,12 @@ func bufScenarioX(capacity, bufMax int, producers [][]string, consumers [][]stri
 				vsched.Event("config", q.GetBufferSizeMaximum() == bufMax && q.GetLoadFromPoolDuration() == 3*time.Millisecond &&
 					q.GetNodeHookPoolSize() == 100 && q.GetFreeNodeHookPoolIntervalDuration() == time.Hour)
 			}
+			vsched.PoolRetain = 0
+			if strings.HasPrefix(mode, "trim") {
+				// one node hook kept by the queue, the free-node worker trims every 5 virtual ms, sync.Pool retains
+				vsched.PoolRetain = int(mode[4] - '0')
+				q = fpgo.NewBufferedChannelQueue[int](capacity, bufMax, 1).SetFreeNodeHookPoolIntervalDuration(5 * time.Millisecond)
+			}
 			ps = probeState{q}
 			var wg sync.WaitGroup
 			for pi, script := range producers {
@@ -96,6 +106,19 @@ func bufScenarioX(capacity, bufMax int, producers [][]string, consumers [][]stri
 						v := pi*10 + k + 1
 						f0 := fullTick
 						var err error
+						if op == "drainall" { // the producer takes everything back, then pauses (the free-node worker trims)
+							for q.Count() > 0 {
+								got, err := q.TakeWithTimeout(30 * time.Millisecond)
+								if err != nil {
+									vsched.Event("drain-miss", errName(err), true)
+									break
+								}
+								vsched.Event("got", 98, got, "take")
+							}
+							time.Sleep(12 * time.Millisecond)
+							vsched.Event("idle-over", int(lib.Priv(q, "pool", "nodeCount").Int()))
+							continue
+						}
 						if op == "shrink1" { // lower the overflow limit to 1 while items are buffered
 							q.SetBufferSizeMaximum(1)
 							curMax, justShrunk = 1, true
@@ -406,9 +429,18 @@ func scenarios(tier string) []*vsched.Scenario {
 		// the overflow limit lowered below what is already buffered: nothing more is accepted until it drains
 		out = append(out, bufScenario(1, 3, [][]string{{"offer", "offer", "offer", "offer", "shrink1", "offer", "offer"}}, nil, 1, false),
 			bufScenario(0, 2, [][]string{{"offer", "offer", "shrink1", "offer"}}, [][]string{{"take"}}, 1, false))
+		// two bursts into the overflow buffer with a drain and an idle period between them (node hooks are
+		// recycled through the queue's own list, trimmed by the free-node worker, and through sync.Pool)
+		six := []string{"offer", "offer", "offer", "offer", "offer", "offer"}
+		var rounds []string
+		for k := 0; k < 4; k++ {
+			rounds = append(append(rounds, six...), "drainall")
+		}
+		burst := [][]string{append(rounds, six...)}
+		out = append(out, bufScenarioX(1, 5, burst, nil, "take", 0, false, "trim1"), bufScenarioX(1, 5, burst, nil, "take", 0, false, "trim2"))
 		// configured through the setters instead of the constructor
-		out = append(out, bufScenarioX(1, 1, P1, cons[0], "poll", 1, false, true), bufScenarioX(1, 0, P1, cons[1], "poll", 1, false, true),
-			bufScenarioX(2, 2, P1, nil, "take", 1, false, true), bufScenarioX(0, 1, P1, cons[2], "poll", 1, false, true))
+		out = append(out, bufScenarioX(1, 1, P1, cons[0], "poll", 1, false, "setters"), bufScenarioX(1, 0, P1, cons[1], "poll", 1, false, "setters"),
+			bufScenarioX(2, 2, P1, nil, "take", 1, false, "setters"), bufScenarioX(0, 1, P1, cons[2], "poll", 1, false, "setters"))
 		return out
 	}
 	for c := 0; c <= 2; c++ {
@@ -422,7 +454,7 @@ func scenarios(tier string) []*vsched.Scenario {
 	out = append(out, bufScenario(1, 1, P1, cons[0], 2, false), bufScenario(1, 1, P1, cons[1], 2, false))
 	for c := 0; c <= 2; c++ {
 		for b := 0; b <= 2; b++ {
-			out = append(out, bufScenarioX(c, b, P1, cons[(c+b)%4], "poll", 2, false, true))
+			out = append(out, bufScenarioX(c, b, P1, cons[(c+b)%4], "poll", 2, false, "setters"))
 		}
 	}
 	for c := 0; c <= 2; c++ {
